@@ -856,16 +856,7 @@ def oracle(case, obs):
     return fails
 
 
-FINDING_CLASSIFIERS = {
-    # read_is_connected runs the callbacks only `if self._last_error:`; after a clean disconnect (ConnectionClosed ->
-    # closeConnection) nothing ever stored an error text, so the first reconnect is silent
-    'callbacks_skipped_after_clean_disconnect':
-        lambda case, obs, f: f['class'] == 'callbacks-not-run-after-clean-disconnect',
-    # trigger_all returns None, callCallbacks removes every callback whose result is falsy
-    'trigger_callback_dropped':
-        lambda case, obs, f: f['class'] == 'polling-not-retriggered-after-first' and bool(case.get('poller'))
-        and TRIGGER_KEY not in obs['cbkeys'],
-}
+FINDING_CLASSIFIERS = {}     # both findings of C16 were repaired in /repo (18d6f98, f9007fb): nothing is suppressed
 
 
 def nontrivial_key(case, obs):
